@@ -53,21 +53,21 @@ PROPS = {
     },
     "C10": {
         "lean": ["FH.Props.C10"],
-        "engines": ["rule", "hist"],
+        "engines": ["rule", "hist", "pe", "macho"],
         "level_text": "Theorems: per-step progress facts for every rule and for the uncacheable DWARF path of both architectures with any row (C10_x64_generic_caller_step, C10_a64_generic_caller_step: a successful caller-frame step strictly increases sp or, on aarch64, ends the walk), for interpreted PE steps (C03_interpreted_step_commits_progress), and a walk-level no-repeat/termination theorem by a lexicographic argument over (sp, address); correspondence + direct per-step progress oracle on the implementation.",
         "level_note": _NOTE,
         "statement": "Caller-frame rule steps never decrease sp, frame-pointer steps strictly increase it, success never leaves (sp, address) unchanged; along any walk no (address, sp) state repeats and walks have bounded length. aarch64: sp strictly increases in every caller-frame step.",
     },
     "C11": {
         "lean": ["FH.Props.C11"],
-        "engines": ["rule", "hist", "scn"],
+        "engines": ["rule", "hist", "scn", "pe", "macho"],
         "level_text": "Theorems: no null frame, error address is an unreadable address, for all rules/registers/readers; Ok(None) only at a root marker - a rule step of either architecture completes the walk only through the return-address-undefined rule, a null frame pointer the rule follows / reads, or a null (stripped) return address (C11_x64_done_only_at_root_marker, C11_a64_done_only_at_root_marker), and the undefined-return-address rules do complete it; truncation at step and walk level; correspondence + direct oracle using a recording stack reader.",
         "level_note": _NOTE,
         "statement": "Rule-based steps never return a null frame; an Err(CouldNotReadStack(a)) names an address whose read failed; truncating the readable stack at any cut yields a prefix of the frames followed by such an error (walk-level theorem for arbitrary rule assignments, both architectures); a null return address is the end of the stack on every path.",
     },
     "C16": {
         "lean": ["FH.Props.C16"],
-        "engines": ["rule", "hist"],
+        "engines": ["rule", "hist", "macho"],
         "level_text": "Theorems: stripping of the returned address and of lr for every rule and outcome; signed stacks: a stack whose saved return addresses carry any bits outside the mask gives the identical step - result and registers - as the unsigned stack, for every rule (C16_signed_step_equals_unsigned) and for the uncacheable DWARF path with any row (C16_signed_generic_step_equals_unsigned), and hence the identical walk of any length under any assignment of rules to frames (C16_signed_walk_equals_unsigned, induction over the walk), provided no word read as a saved frame pointer is a signed word; from_max_known_address preserves all addresses up to its argument (all 65 leading-zero classes by a kernel-checked table + lemma); correspondence + direct bit oracle + signed twins.",
         "level_note": _NOTE,
         "statement": "Every return address reported by an aarch64 rule step and the lr left in the register set have no bits outside the mask; a signed stack unwinds exactly like the unsigned one (step and walk level); from_max_known_address preserves every address up to its argument, including 0; constructors are total.",
@@ -152,9 +152,9 @@ PROPS = {
         "statement": "Same CFI, any presentation.",
     },
     "C02": {
-        "lean": ["FH.Props.C02", "FH.Props.C02A64"],
+        "lean": ["FH.Props.C02", "FH.Props.C02A64", "FH.Props.C02Walk"],
         "engines": ["macho", "ana", "asm"],
-        "level_text": "Theorems (x86-64, for every choice and order of registers, legacy and REX encodings): stopped anywhere in `pop...; ret` the analysed rule restores exactly the rsp/rbp/return address the CPU will have (machine model runPops); stopped after any prefix of the prologue's pushes the rule finds the return address above them; after `push rbp; mov rbp, rsp; push...` it is the frame pointer rule; frameless opcodes give rules that execute the documented layout (rbp slot by position: C02_x64_rbp_position_is_push_index, for rbp pushed at any index of the register list); dispatch: __stubs/__stub_helper precedence and first-frame-only, function starts are leaves, function bytes are exactly the function's slice of the text; __stub_helper tables equal the documented dyld_stub_binder layout on both architectures; arm64 body rules. x86-64 tail calls: `pop...; jmp` at every boundary (C02_x64_tail_call_exact) and the pc exactly on a jmp that follows a pop or `add rsp, imm` (C02_x64_on_tail_jmp). arm64 (FH/Props/C02A64.lean), against a machine model of the instructions with the encodings written out field by field (the bit tests of the Rust code are discharged by div/mod arithmetic, no bv_decide): any epilogue - any sequence of ldp (post-index, pre-index, signed offset; any register pair and immediate) and add sp, ended by ret / retab / b / br - analysed at any boundary yields a rule whose execution equals running the rest of the epilogue (C02_a64_epilogue_exact); the pc exactly on the tail-call branch after an sp adjustment gives NoOp (C02_a64_tail_call_after_sp_adjust); any prologue prefix - pacibsp, stp (three addressing modes), sub sp - counted from the function start or the first foreign instruction gives the rule that restores the entry sp (C02_a64_prologue_exact); once `add x29, sp, #n` has been executed the scan defers to the body rule. Hypotheses are the shape facts of real code (frame released in multiples of 16, slots 8-aligned, at most 100 instructions, sizes within the rule's fields). Tie: ana (hooks, byte for byte), macho (whole modules, ground-truth walks incl. tail calls and locals allocated after the frame setup) and asm (the generator's encodings against llvm-mc).",
+        "level_text": "Theorems (x86-64, for every choice and order of registers, legacy and REX encodings): stopped anywhere in `pop...; ret` the analysed rule restores exactly the rsp/rbp/return address the CPU will have (machine model runPops); stopped after any prefix of the prologue's pushes the rule finds the return address above them; after `push rbp; mov rbp, rsp; push...` it is the frame pointer rule; frameless opcodes give rules that execute the documented layout (rbp slot by position: C02_x64_rbp_position_is_push_index, for rbp pushed at any index of the register list); dispatch: __stubs/__stub_helper precedence and first-frame-only, function starts are leaves, function bytes are exactly the function's slice of the text; __stub_helper tables equal the documented dyld_stub_binder layout on both architectures; arm64 body rules. x86-64 tail calls: `pop...; jmp` at every boundary (C02_x64_tail_call_exact) and the pc exactly on a jmp that follows a pop or `add rsp, imm` (C02_x64_on_tail_jmp). arm64 (FH/Props/C02A64.lean), against a machine model of the instructions with the encodings written out field by field (the bit tests of the Rust code are discharged by div/mod arithmetic, no bv_decide): any epilogue - any sequence of ldp (post-index, pre-index, signed offset; any register pair and immediate) and add sp, ended by ret / retab / b / br - analysed at any boundary yields a rule whose execution equals running the rest of the epilogue (C02_a64_epilogue_exact); the pc exactly on the tail-call branch after an sp adjustment gives NoOp (C02_a64_tail_call_after_sp_adjust); any prologue prefix - pacibsp, stp (three addressing modes), sub sp - counted from the function start or the first foreign instruction gives the rule that restores the entry sp (C02_a64_prologue_exact); once `add x29, sp, #n` has been executed the scan defers to the body rule. Whole walks (FH/Props/C02Walk.lean): x86-64 (C02_x64_walk) over any true chain of frame-based and frameless functions in any mixture and depth, the innermost stopped in its body, and arm64 (C02_a64_walk) over an optional frameless innermost function with locals followed by any number of frame-record functions - the walk yields exactly the return addresses (stripped on arm64) with the caller's registers after each step and ends with Ok(None) at the root (induction over the chain, composing the frame-record and frameless-layout step theorems with the dispatch). Hypotheses are the shape facts of real code (frame released in multiples of 16, slots 8-aligned, at most 100 instructions, sizes within the rule's fields). Tie: ana (hooks, byte for byte), macho (whole modules, ground-truth walks incl. tail calls and locals allocated after the frame setup) and asm (the generator's encodings against llvm-mc).",
         "level_note": _NOTE + " macho-unwind-info's parser (UnwindInfo::lookup, opcode field extraction) is outside the model; the model takes the parsed opcode, recomputed by the harness with the real parser, and the writer exercises regular and compressed pages.",
         "statement": "Mach-O compact unwind: x86-64 prologue/epilogue analysis sound for all push/pop sequences; body rules exact; dispatch order; stub tables; arm64 prologue/epilogue word scans proved exact against a machine model (any ldp/add/stp/sub sequence, returns and tail calls).",
     },
